@@ -877,7 +877,7 @@ static void InitFields(void) {
     AddReg("SYNMOVQ", 0x602, IntOp, NoneOp, IntOp, False, False, False);
     AddReg("TANR", 0x68e, SingleOp, NoneOp, SingleOp, True, False, False);
     AddReg("TANRL", 0x69e, DoubleOp, NoneOp, DoubleOp, True, False, False);
-    AddReg("XOR", 0x589, IntOp, IntOp, IntOp, True, True, False);
+    AddReg("XOR", 0x586, IntOp, IntOp, IntOp, True, True, False);
     AddReg("XNOR", 0x589, IntOp, IntOp, IntOp, True, True, False);
 
     CobrOrders = (CobrOrder*)malloc(sizeof(CobrOrder) * CobrOrderCnt);
